@@ -6,9 +6,7 @@ import "os"
 func copyFile(f *File, newName string) (*File, error) {
 	f.dataMU.RLock()
 	defer f.dataMU.RUnlock()
-	var datacopy = make([]byte, len(f.data))
-	copy(datacopy[:], f.data)
-	return NewFile(newName, f.filemode, f.time, datacopy), nil
+	return NewFile(newName, f.filemode, f.time, f.data), nil
 }
 
 // copyDir copy directory and return new directories and files tree
